@@ -28,9 +28,9 @@ Definition spec_lookup_str {X} (k : kind) (l : list (option X)) (idof : X -> opt
           | Some n => if N.ltb n (N.of_nat (length l))
                       then (match slot l (N.to_nat n) with Some _ => [N.to_nat n] | None => [] end)
                       else []
-          | None => []
+          | None => plain        (* not a temporary id after all: an ordinary identifier *)
           end
-        else []
+        else plain
       else plain
   | _ => plain
   end.
